@@ -39,6 +39,11 @@ class Builder:
         for _ in range(n):
             if asserts and self.rng.random() < 0.15:
                 self.nassert += 1
+                if profile == "bwd":   # assertions with bounds exactly at -1, 0, 1 on one variable
+                    v = self.rng.choice(self.ints)
+                    out.append({"op": "assert", "c": {"e": {"k": self.rng.choice([-1, 0, 1]), "t": [[self.rng.choice([1, -1]), v]]},
+                                                      "r": self.rng.choice(["le", "lt", "eq", "ne"])}, "id": self.nassert})
+                    continue
                 if self.bools and self.rng.random() < 0.2:
                     out.append({"op": "bassert", "x": self.rng.choice(self.bools), "id": self.nassert})
                 else:
